@@ -18,7 +18,7 @@ def F(name, seconds=180, pkg="internal"):
 
 PROPS = {
     "C01": dict(tests=[T("TestVerifC01", 1500, 12000, shrinktime="0s", gomaxprocs=[16, 4, 2, 16]),
-                       T("TestVerifC01Wide", 60, 600, shrinktime="0s")]),
+                       T("TestVerifC01Wide", 40, 600, shrinktime="0s", gomaxprocs=[16, 4, 8, 2], q_shards=2)]),
     "C02": dict(tests=[T("TestVerifC02Pipeline", 15000, 200000), T("TestVerifC02Conc", 60, 600, shrinktime="0s"), F("FuzzVerifC02Pipeline")]),
     "C03": dict(tests=[T("TestVerifC03Seq", 4000, 60000), T("TestVerifC03Hybrid", 2000, 20000),
                        T("TestVerifC03Conc", 150, 1500, shrinktime="0s", gomaxprocs=[16, 4, 8, 16])]),
@@ -47,7 +47,7 @@ PROPS = {
                        dict(T("TestVerifC18", 6000, 50000, th_shards=8), go="go1.26.8", tiers=("thorough",), label="go1.26.8")]),
     "C16": dict(tests=[T("TestVerifC16", 300, 4000, shrinktime="0s", gomaxprocs=[16, 4, 2, 16]), T("TestVerifC16Seq", 3000, 40000)]),
     "C17": dict(tests=[T("TestVerifC17", 20000, 150000), F("FuzzVerifC17")]),
-    "C19": dict(tests=[T("TestVerifC19", 250, 3000, race=True, shrinktime="0s", gomaxprocs=[16, 4, 8, 16], q_timeout=400)]),
+    "C19": dict(tests=[T("TestVerifC19", 125, 3000, race=True, shrinktime="0s", gomaxprocs=[16, 4, 8, 16], q_timeout=400, q_shards=2)]),
     "C20": dict(tests=[T("TestVerifC20", 400, 6000, shrinktime="0s", gomaxprocs=[16, 4, 2, 16]),
                        T("TestVerifC20Pipeline", 1500, 20000)]),
 }
